@@ -85,7 +85,10 @@ func (w *c06Worker) kill() {
 	w.cmd.Wait()
 }
 
-const c06Timeout = 20 * time.Second
+const c06Timeout = 30 * time.Second
+
+// c06Slow: a record slower than this, twice in a row, is reported.
+const c06Slow = 10 * time.Second
 
 // c06Send runs one record. died=true: the worker process ended while running
 // it (stderr tail in msg). timedOut=true: no answer within the limit.
@@ -285,11 +288,11 @@ func judgeC06(c C06Case, rep c06Reply, verdict string) string {
 	if c.Kind != 1 && rep.Next > len(c.Input)+16 {
 		return fmt.Sprintf("%d successful Next/Decode calls on %d input bytes: values are produced without consuming input\n%s", rep.Next, len(c.Input), desc())
 	}
-	if rep.Nanos > int64(5*time.Second) {
+	if rep.Nanos > int64(c06Slow) {
 		// wall-clock time is only a signal: confirm on a second run (the machine
 		// may simply be busy); a slowness that does not reproduce is counted, not reported
 		again, v2 := c06Exec(c)
-		if v2 == "" && again.Nanos <= int64(5*time.Second) {
+		if v2 == "" && again.Nanos <= int64(c06Slow) {
 			st.Discard("slow-once-not-reproduced")
 			return ""
 		}
@@ -677,7 +680,7 @@ func TestC06(t *testing.T) {
 func init() {
 	Describe("C06",
 		"cases: (program, input) with input from: symbol-table structs with hostile values (typed nulls of every type, huge / negative ints, wrong types, duplicates, annotations) in every slot incl. import structs, in text and binary; complete binary values with extreme lengths / IDs / exponents / years / offsets (2^20 .. 2^64-1), optionally inside containers; extreme text (huge $n, exponents, 3000-digit numbers, 20000-deep nesting, 30 KB comments); the C07 edit catalogue sampled on valid documents; splices; random bytes; valid documents (calibration). Program: full traversal with every accessor, a random navigation program of 1-60 calls issued regardless of state (after errors, at end of stream, wrong type), Decoder.Decode until error, Unmarshal into one of 32 target types, Decoder.DecodeTo repeatedly. Enumerated: every byte string of length <= 2, bare and behind a version marker (131 586 inputs x 2 programs), every extreme token x 4 wrappers x 5 programs. Non-trivial: input longer than 2 bytes. Distinct by digest(program, argument, input).",
-		"oracle (validity, observed from outside): the input runs in an isolated worker process (RLIMIT_AS 3 GiB) that reports recovered panics, bytes allocated (runtime.MemStats.TotalAlloc delta), elapsed time and the number of successful Next / Decode calls; a worker death or a missing answer within 20 s is attributed to the record in flight and confirmed by a solo re-run in a fresh process. Violations: panic; process death; allocation > 1 MiB + 64 x len(input); more than len(input)+16 values produced by a traversal / decode loop; > 5 s for one record",
+		"oracle (validity, observed from outside): the input runs in an isolated worker process (RLIMIT_AS 3 GiB) that reports recovered panics, bytes allocated (runtime.MemStats.TotalAlloc delta), elapsed time and the number of successful Next / Decode calls; a worker death or a missing answer within 30 s is attributed to the record in flight and confirmed by a solo re-run in a fresh process. Violations: panic; process death; allocation > 1 MiB + 64 x len(input); more than len(input)+16 values produced by a traversal / decode loop; > 10 s for one record, twice in a row",
 		"inputs <= 64 KiB; nesting depth bounded by input size; a timeout that does not reproduce on the solo re-run is ignored (counted as a retry), not reported",
 	)
 }
